@@ -106,4 +106,16 @@ NoTornReply == \A p \in Readers : reply[p] # "torn"
 \* nobody waits for ever: unless every goroutine has finished, some step is possible
 AllDone == \A p \in Procs : pc[p] = "idle" /\ left[p] = 0
 NoDeadlock == AllDone \/ ENABLED Next
+
+\* ---------------- liveness (C06 "... never deadlock": beyond the absence of a stuck state, every goroutine finishes)
+\* Under weak fairness of every goroutine's own steps all operations complete: a writer that has asked for the lock
+\* blocks NEW readers (ww), so it gets the lock once the current readers have left; NOps is finite, so readers get in
+\* once the writers are done.  Under "recursiveRead" the property fails (the deadlock is also a liveness failure).
+PStep(p) == \/ p \in Writers /\ (WStart(p) \/ WLockReq(p) \/ WLock(p) \/ WAmbB(p) \/ WAmbE(p) \/ WMutB(p) \/ WMutE(p) \/ WUnlock(p))
+            \/ p \in Readers /\ (RStart(p) \/ RLock(p) \/ RWalkB(p) \/ RWalkE(p) \/ RUnlock(p) \/ RLookB(p) \/ RLookE(p)
+                                 \/ RAllowLock(p) \/ RAllowB(p) \/ RAllowE(p) \/ RReLock(p))
+FairSpec == Spec /\ \A p \in Procs : WF_vars(PStep(p))
+Termination == <>[]AllDone
+\* a writer that has asked for the lock gets it (no writer starvation by a stream of readers)
+WriterProgress == \A p \in Writers : (pc[p] = "w_wait") ~> (wl = p)
 =============================================================================
